@@ -14,6 +14,14 @@ static int cmp(const void *a, const void *b) {
     uint8_t x = *(const uint8_t *)a, y = *(const uint8_t *)b;
     return x < y ? -1 : (x > y ? 1 : 0);
 }
+/* the same order through comparators of the other shapes users write: "a > b" (0 / 1, what the library's own task
+ * scheduler passes) and a scaled difference (any negative / zero / positive value) */
+static int cmp_bool(const void *a, const void *b) {
+    return *(const uint8_t *)a > *(const uint8_t *)b;
+}
+static int cmp_diff(const void *a, const void *b) {
+    return ((int)*(const uint8_t *)a - (int)*(const uint8_t *)b) * 1000;
+}
 /* element layout: [0]=value, [1]=id (isz==2) or [1..2]=id (isz>=3), rest = pattern derived from id */
 static void fill(uint8_t *e, int v, int id) {
     e[0] = (uint8_t)v;
@@ -114,11 +122,13 @@ int main(int argc, char **argv) {
             for (int h = 0; h <= NH; ++h) {
                 aws_priority_queue_node_init(&nodes[h]);
             }
+            const char *ck = vh_ntok > 4 ? vh_args(4) : "3way";
+            aws_priority_queue_compare_fn *cf = !strcmp(ck, "bool") ? cmp_bool : (!strcmp(ck, "diff") ? cmp_diff : cmp);
             if (is_static) {
                 static_heap = malloc(cap * isz ? cap * isz : 1);
-                aws_priority_queue_init_static(&pq, static_heap, cap, isz, cmp);
+                aws_priority_queue_init_static(&pq, static_heap, cap, isz, cf);
             } else {
-                aws_priority_queue_init_dynamic(&pq, vh_alloc(), cap, isz, cmp);
+                aws_priority_queue_init_dynamic(&pq, vh_alloc(), cap, isz, cf);
             }
             live = true;
             vh_begin("Reset");
